@@ -196,6 +196,56 @@ def run(r: Run):
                     corr_ok = False
                     r.violation("corr-npeaks", {"kind": "differs"}, f"n_peaks({float(m)}, {float(t)}) = {n}, model {mn}",
                                 expected=mn, observed={"line": one}, kind="corr_broken")
+    # the `_impl` entry points the wrappers forward to, with OTHER parameters: lambda factors 900 / 2500 / 1 (the ratio law
+    # is p[i]/p[i-1] = (mass/lf)/i), iteration caps 1 / 2 / 10 / 64 (the count never exceeds the cap and equals it when no
+    # term qualifies earlier)
+    ilines, imeta = [], []
+    for lf in (Fraction(900), Fraction(2500), Fraction(1), Fraction(1800)):
+        for m in (Fraction(0), Fraction(750), lf, lf * 5 / 2, Fraction(12000)):
+            if m / lf > 60:
+                continue
+            for n in (1, 4, 25):
+                z = rng.choice([1, -2, 3])
+                ilines.append(f"poissoni\t{fr(m)}\t{n}\t{z}\t{fr(lf)}")
+                imeta.append((m, n, z, lf))
+    iimpl, imodel = r.impl("poisson", ilines), r.model("poisson", ilines)
+    for (m, n, z, lf), line, il, ml in zip(imeta, ilines, iimpl, imodel):
+        a, b = parse_pattern(il), parse_pattern(ml)
+        r.case(("impl-entry", float(lf), n, isinstance(a, str)), {"line": line, "impl": il[:120]})
+        bad = isinstance(a, str) or isinstance(b, str) or len(a[1]) != len(b[1]) or any(
+            not close(x[1], y[1], rel=1e-9, abs_=1e-300) or not close(x[0], y[0], rel=1e-9) for x, y in zip(a[1], b[1]))
+        if bad:
+            corr_ok = False
+            r.violation("poisson-impl", {"lambda_factor": str(lf)}, f"poisson_approximation_impl({float(m)}, {n}, {z}, {float(lf)}) differs from the "
+                        f"normalised Poisson profile with lambda = mass / {float(lf)}", expected=ml[:300], observed={"line": line, "impl": il[:300]})
+    nlines, nmeta = [], []
+    tgrid = [Fraction(k, 20) for k in range(0, 21)] + [Fraction(999, 1000)]
+    for lf in (Fraction(900), Fraction(1800), Fraction(2500)):
+        for mi in (1, 2, 10, 64):
+            for m in (Fraction(0), Fraction(750), Fraction(5000), Fraction(40000)):
+                nlines.append(f"poissonni\t{fr(m)}\t{fr(lf)}\t{mi}\t" + ",".join(fr(t) for t in tgrid))
+                nmeta.append((m, lf, mi))
+    nimpl, nmodel = r.impl("poisson", nlines), r.model("poisson", nlines)
+    for (m, lf, mi), line, il, ml in zip(nmeta, nlines, nimpl, nmodel):
+        iv, mv = il.split(" "), ml.split(" ")
+        if len(iv) != len(tgrid) or len(mv) != len(tgrid):
+            raise Broken(f"poissonni protocol: {il[:80]} / {ml[:80]}")
+        for t, x, y in zip(tgrid, iv, mv):
+            r.case(("impl-npeaks", mi, x), {"line": f"poissonni {float(m)} {float(lf)} {mi} {float(t)}", "impl": x})
+            mn, margin_s, _ = y.split(":")
+            margin = None if margin_s == "inf" else Fraction(margin_s)
+            one = f"poissonni\t{fr(m)}\t{fr(lf)}\t{mi}\t{fr(t)}"
+            if not x.isdigit() or not (1 <= int(x) <= max(1, mi)):
+                corr_ok = False
+                r.violation("npeaks-range", {"value": x, "cap": mi}, f"poisson_approximate_n_peaks_of_impl({float(m)}, {float(lf)}, {float(t)}, {mi}) = {x}",
+                            observed={"line": one})
+            elif margin is not None and margin < 4 * (2 * int(mn) + 8) * Fraction(1, 2 ** 53):
+                skipped += 1
+            elif x != mn:
+                corr_ok = False
+                r.violation("npeaks-minimal", {"kind": "impl-entry"}, f"poisson_approximate_n_peaks_of_impl({float(m)}, {float(lf)}, {float(t)}, {mi}) = {x}, "
+                            f"the smallest qualifying count under that cap is {mn}", expected=mn, observed={"line": one})
+    r.coverage["impl_entry_points"] = dict(profiles=len(ilines), counts=len(nlines) * len(tgrid))
     r.coverage["boundary_skipped"] = skipped
     r.oblige("correspondence: poisson_approximation / poisson_approximate_n_peaks_of agree with the exact model", "corr", corr_ok)
     r.assumptions.append("f64 rounding and overflow are not modelled: the ratio law and minimality are compared where (mass/1800)^n is representable")
